@@ -990,7 +990,16 @@ Definition call_builtin (env : nat) (b : bfn) (args : list val) (kwargs : kwargs
           end
       | _ => tyerr "Str#at requires at least 2 args"
       end
-  | B_Str_new => unsup "Str#new"
+  | B_Str_new =>
+      match args with
+      | proto :: v :: _ =>
+          st <- get_st ;;
+          match as_str W st v with
+          | Some (_, x) => ret (VStr proto x)
+          | None => unsup "Str.new(non-str)"      (* the implementation answers \2.S *)
+          end
+      | _ => tyerr "Str#new requires at least 2 args"
+      end
   (* ---------- Arr ---------- *)
   | B_Arr_add =>
       match args with
